@@ -39,6 +39,10 @@ class Sim:
         for s in self.g['srcs']:
             self.now += 1
             self.files[s] = {'c': s + "#0", 'm': self.now}
+        for dd, info in self.g.get('dd_files', {}).items():
+            if not info['produced']:
+                self.now += 1
+                self.files[dd] = {'c': models.dyndep_text(self.g, dd), 'm': self.now}
         self.edit_n = 0
         self.model = Make()
         self.logdir = probe.newdir()
@@ -182,7 +186,7 @@ class Sim:
                 self.model.deprec.clear()
                 self.labels.add('wipe_deps')
         elif k == 'touch_restat_input':
-            es = [e for e in cmds if e['restat']]
+            es = [e for e in cmds if models.is_restat(e)]
             if es:
                 e = es[op['a'] % len(es)]
                 cand = [i for i in e['exp'] + e['imp'] if i in srcs]
@@ -259,7 +263,13 @@ class Sim:
         try:
             res = self.probe.request(req)
         except ProbeDied as d:
-            self.add('C13', 'crash', 'SIM child died: ' + d.describe())
+            known = None
+            if ("RefreshDyndepDependents" in d.stderr and "!edge->outputs_ready()" in d.stderr
+                    and any(e.get('dd') and e.get('dd_restat') for e in g['edges'])):
+                # call site + shape of known finding D18 (a statement judged dirty before its dyndep file, which adds
+                # restat, was loaded, and clean afterwards)
+                known = 'D18_dirty_before_dyndep_restat_clean_after'
+            self.add('C13', 'crash', 'SIM child died: ' + d.describe(), known=known)
             self.stop = True
             return None
         self.last = dict(req=req, res=res, pred=pred)
@@ -557,12 +567,29 @@ class Sim:
         fin_seq = {e_: f['seq'] for e_, f in fins.items()}
         fin_ok = {e_: f['status'] == 0 for e_, f in fins.items()}
         started = set(start_seq)
+        # statements that are part of the build only through inputs a dyndep file adds are unknown to ninja until
+        # that file has been produced and loaded: they cannot count as startable before
+        prod = producer_map(g)
+        known_from_start, todo = set(), list(self.cur['targets']) if getattr(self, 'cur', None) else []
+        vals_seen = set()
+        while todo:
+            n = todo.pop()
+            pe = prod.get(n)
+            if pe is None or key(pe) in known_from_start:
+                continue
+            known_from_start.add(key(pe))
+            todo += pe['exp'] + pe['imp'] + pe['oo'] + list(disc.get(key(pe), [])) + pe.get('vals', []) + ([pe['dd']] if pe.get('dd') else [])
+        dd_prod_fin = [fin_seq[key(x)] for x in g['edges'] if x.get('is_dd_producer') and key(x) in fin_seq]
         for ev in starts:
             e = self.edge_by_key(ev['edge'])
             need = [p for p in transitive_producers(g, e, disc) if p in started]
             if any(not fin_ok.get(p, False) for p in need):
                 continue
             ready_at = max([fin_seq[p] for p in need] or [-1])
+            if ev['edge'] not in known_from_start:
+                if not dd_prod_fin:
+                    continue
+                ready_at = max([ready_at] + dd_prod_fin)
             pool = e.get('pool') or ''
             depth = 0
             if pool:
@@ -618,7 +645,7 @@ class Sim:
                     # a failed command that rewrote its output invalidates the recorded deps; with a generated
                     # hidden read that has no manifest path nothing could order the retry (a broken manifest by
                     # the manual's own words), so that combination is not generated
-                    if touch and self.unordered_hidden(e):
+                    if touch and (self.unordered_hidden(e) or e.get('is_dd_producer')):
                         touch = False
                         self.stats['excluded_touch_on_unordered'] = self.stats.get('excluded_touch_on_unordered', 0) + 1
                     faults[key(e)] = dict(fail=code, fail_touch=touch)
@@ -673,3 +700,120 @@ class Sim:
             else:
                 self.apply_change(op)
         return self.findings
+
+
+# ---------------------------------------------------------------------------------------------- C10 metamorphic
+def to_declared(g):
+    """variant B of a graph: every discovered (hidden) read is written as an implicit input, no discovery at all"""
+    gb = copy.deepcopy(g)
+    for e in gb['edges']:
+        if e.get('hidden'):
+            for h in e['hidden']:
+                if h not in e['exp'] + e['imp']:
+                    e['imp'].append(h)
+                if h in e['oo']:
+                    e['oo'].remove(h)
+        e['hidden'] = []
+        e['deps'] = ''
+    return gb
+
+
+def to_inlined(g):
+    """variant B for C11: what the dyndep files say is written into the manifest directly; the dyndep file itself stays
+    an order-only input so that its producer is still part of the build"""
+    gb = copy.deepcopy(g)
+    for e in gb['edges']:
+        if e.get('dd'):
+            for i in e.get('dd_ins', []):
+                if i not in e['exp'] + e['imp']:
+                    e['imp'].append(i)
+            e['iouts'] = list(e.get('iouts', [])) + list(e.get('dd_outs', []))
+            if e.get('dd_restat'):
+                e['restat'] = True
+            if e['dd'] not in e['oo'] and e['dd'] not in e['exp'] + e['imp']:
+                e['oo'].append(e['dd'])
+            e['dd'] = None
+            e['dd_ins'], e['dd_outs'], e['dd_restat'] = [], [], False
+    gb['dd_files_inlined'] = gb.pop('dd_files', {})
+    return gb
+
+
+SKIP_IN_C10 = ('wipe_deps', 'del_depfile', 'rehide', 'swap_hidden_same_content', 'edit_recent_hidden')
+
+
+def run_metamorphic(simA, ops, transform=None, prop='C10', what='declared-implicit'):
+    """C10: the same history on variant A (discovered deps) and variant B (declared implicit inputs).
+    C11: variant A with dyndep files, variant B with their information inlined."""
+    transform = transform or to_declared
+    probe = simA.probe
+    simB = Sim(probe, transform(simA.g))
+    for dd, info in simA.g.get('dd_files', {}).items():
+        if dd in simA.files and dd not in simB.files:
+            simB.files[dd] = dict(simA.files[dd])
+    try:
+        if not simA.establish() or not simB.establish():
+            return
+        for op in simA.expand(ops):
+            if simA.stop or simB.stop:
+                break
+            if op['op'] in SKIP_IN_C10 or op['op'].startswith('m_'):
+                continue
+            if op['op'] != 'build':
+                simA.apply_change(op)
+                # mirror the effect on B: same sources, same deletions, same command variants
+                gb = transform(simA.g)
+                simB.g = gb
+                simB.now = max(simB.now, simA.now)
+                for s in simA.g['srcs']:
+                    if s in simA.files:
+                        simB.files[s] = dict(simA.files[s])
+                    else:
+                        simB.files.pop(s, None)
+                for e in simA.cmd_edges():
+                    for o in all_outs(e):
+                        if o not in simA.files:
+                            simB.files.pop(o, None)
+                if op['op'] == 'drop_log':
+                    es = simA.cmd_edges()
+                    if es:
+                        simB.drop_log_records(all_outs(es[op['a'] % len(es)]))
+                continue
+            if op.get('faults'):
+                continue
+            targets = simA.targets_for(op['sel'])
+            nA = len(simA.findings)
+            simA.last_model_before = simA.model.clone()
+            simB.last_model_before = simB.model.clone()
+            simA.now = simB.now = max(simA.now, simB.now)
+            rA = simA.invoke(targets, j=op['j'], k=op['k'], sched=op['sched'])
+            rB = simB.invoke(targets, j=op['j'], k=op['k'], sched=op['sched'])
+            if rA is None or rB is None:
+                return
+            simA.stats['builds'] += 1
+            if any(f['known'] for f in simA.findings[nA:]):
+                # the known finding D1 is exactly a place where A is allowed (recorded) to differ; stop here
+                for f in simA.findings[nA:]:
+                    if f['known']:
+                        simA.add(prop, 'differs from the %s variant (attributed)' % what, dict(via=f['kind']), known=f['known'])
+                break
+            stA = sorted(ev['edge'] for ev in rA['trace'] if ev['ev'] == 'start')
+            stB = sorted(ev['edge'] for ev in rB['trace'] if ev['ev'] == 'start')
+            if (rA['status'] == 0) != (rB['status'] == 0):
+                simA.add(prop, 'build result differs from the %s variant' % what, dict(A=dict(status=rA['status'], err=rA['err']),
+                                                                                              B=dict(status=rB['status'], err=rB['err']), targets=targets))
+                break
+            if stA != stB:
+                simA.add(prop, 'commands run differ from the %s variant' % what, dict(A=stA, B=stB, targets=targets))
+                break
+            outs = [o for e in simA.cmd_edges() for o in all_outs(e) + models.dd_outs(simA.g, e)]
+            diff = [o for o in outs if simA.files.get(o, {}).get('c') != simB.files.get(o, {}).get('c')]
+            if diff:
+                simA.add(prop, 'contents differ from the %s variant' % what, dict(outputs=diff, targets=targets))
+                break
+            if any(not h.startswith('s') for e in simA.g['edges'] for h in e.get('hidden', [])) and 0 < len(stA):
+                simA.labels.add('generated_discovered_dep_rebuilt')
+            if any(key(e) in stA for e in simA.g['edges'] if e.get('is_dd_producer')) and any(
+                    i not in simA.g['srcs'] for e in simA.g['edges'] for i in models.dd_inputs(simA.g, e)):
+                simA.labels.add('dyndep_built_and_adds_generated_input')
+    finally:
+        simB.close()
